@@ -109,6 +109,8 @@ def judge(argv0, atoms):
     """-> None | (kind, expected, observed)"""
     if any(a["tokens"] == ["-fopenmp=libomp"] for a in atoms) and os.path.basename(argv0) not in ("clang", "clang++"):
         return None  # a clang spelling: other compilers reject it, so nothing is promised there
+    if any(a["tokens"] == ["-fsycl"] for a in atoms) and os.path.basename(argv0) in ("icx", "icpx"):
+        return None  # modelled there (C12)
     exp = expected(atoms)
     obs = observe(argv0, argv_of(atoms))
     if isinstance(obs, tuple):
@@ -132,7 +134,7 @@ def judge(argv0, atoms):
 
 
 def atom_class(a):
-    if a["kind"] in ("other", "mode"):
+    if a["kind"] in ("other", "mode", "prefix"):
         return " ".join(a["tokens"])
     v = a["value"]
     extra = "leading-dash" if v.startswith("-") else ("space" if " " in v else "")
@@ -222,7 +224,11 @@ def vector_strategy():
     # of other compilers (-isystem-after, -include-pch) and are left out of the domain
     dash = st.one_of(st.builds(rec, st.sampled_from(["I", "isystem", "include"]), st.sampled_from(DASH_DIRS), st.just(False)), st.builds(rec, st.just("I"), st.sampled_from(DASH_DIRS), st.just(True)))
     o = st.sampled_from(UNMODELLED).map(unm)
-    mode = st.one_of(st.just({"kind": "mode", "tokens": ["-fopenmp"]}), st.just({"kind": "mode", "tokens": ["-fopenmp=libomp"]}),
+    # CMake's precompiled-header spelling for clang: every argument of the compiler proper is forwarded with -Xclang
+    xclang = st.sampled_from(FILES).map(lambda v: {"kind": "include", "value": v, "attached": False, "tokens": ["-Xclang", "-include", "-Xclang", v]})
+    # an unmodelled option that is a prefix of a modelled one (clang models -fsycl-is-device only) must stay unmodelled
+    prefix = st.sampled_from([["-fsycl"], ["-fopen"], ["-incl"], ["-isys"]]).map(lambda t: {"kind": "prefix", "tokens": t})
+    mode = st.one_of(st.just({"kind": "mode", "tokens": ["-fopenmp"]}), st.just({"kind": "mode", "tokens": ["-fopenmp=libomp"]}), xclang, prefix,
                      st.builds(rec, st.sampled_from(["I", "isystem"]), st.just(""), st.just(False)))
     atom = st.one_of(d, d, i, i, s, f, o, o, o, o, o, st.one_of(dash, o, o, o, o, o, o, o), st.one_of(mode, d, i, o))
     return st.tuples(st.sampled_from(COMPILERS), st.lists(atom, min_size=1, max_size=40))
